@@ -39,6 +39,28 @@ Theorem C16_only_ok_exit_forgets : forall s e s', step s e = Some s' ->
 Proof. exact only_ok_exit_forgets. Qed.
 Print Assumptions C16_only_ok_exit_forgets.
 
+(* "If the block raises, the previous index is kept as backup" - for every class of exception:
+   __exit__ treats a block left through an Exception and one left through a BaseException that is not
+   an Exception (sys.exit, KeyboardInterrupt, GeneratorExit, CancelledError) in the same way ...       *)
+Theorem C16_abort_class_irrelevant : forall s p c c', step s (EndExc p c) = step s (EndExc p c').
+Proof. exact abort_class_irrelevant. Qed.
+Print Assumptions C16_abort_class_irrelevant.
+
+(* ... and after any history, leaving the block through an exception of any class changes neither
+   jobs/ nor jobs.bak/, the backup directory exists, the lock is free, and everything to keep is there *)
+Theorem C16_raise_keeps_index : forall tr s p c s', run init tr = Some s -> step s (EndExc p c) = Some s' ->
+  jobs s' = jobs s /\ bak s' = bak s /\ (exists b, bak s' = Some b) /\ lock s' = None /\ ph s' p = Out /\
+  incl (kept (tr ++ [EndExc p c])) (names (jobs s') ++ names (bakl s')).
+Proof. exact raise_keeps_index. Qed.
+Print Assumptions C16_raise_keeps_index.
+
+(* sensitivity: with an __exit__ that only counts instances of Exception as a failure (not the code),
+   a run left through sys.exit()/KeyboardInterrupt drops the index of the last completed plan       *)
+Theorem C16_exception_only_variant_refuted : exists tr s,
+  run_exconly init tr = Some s /\ ~ incl (kept tr) (names (jobs s) ++ names (bakl s)) /\ In 1 (orphans s).
+Proof. exact exception_only_variant_refuted. Qed.
+Print Assumptions C16_exception_only_variant_refuted.
+
 (* Two processes never hold the same experiment at once *)
 Theorem C16_exclusive : forall tr s p q, run init tr = Some s ->
   is_out (ph s p) = false -> is_out (ph s q) = false -> p = q.
